@@ -174,6 +174,13 @@ PROPS = {
                 bounds=P_BOUNDS, assumptions=P_ASSUME, native_replay=True),
 }
 
+def _c13(tier, seed):
+    from mirsmt import c13
+    return c13.run(tier, seed, common)
+
+
+PROPS["C13"] = dict(custom=_c13)
+
 LEVEL = "model_checking"
 
 
@@ -188,6 +195,8 @@ def specval(quick=True):
 
 def run_property(prop, tier, seed):
     cfg = PROPS[prop]
+    if cfg.get("custom"):
+        return cfg["custom"](tier, seed)
     t0 = time.time()
     fp = common.repo_fingerprint()
     harnesses = cfg["select"](tier, seed)
